@@ -308,7 +308,12 @@ func c17Features(v Val, f map[string]int) {
 }
 
 func c17Emit(c *Ctx, label string, fs VL, outdir, pathflag string, buildroots VL, opts Val, preLinks int) {
-	in := extractInput(fs, c17Cwd(), []byte(outdir), []byte(pathflag), buildroots, opts)
+	cwd := c17Cwd()
+	if vn(vnth(opts, 2)) != 0 {
+		// no output argument: the process runs in (the logical spelling of) the output directory
+		cwd = c17p("q", "p", "w", "out")
+	}
+	in := extractInput(fs, cwd, []byte(outdir), []byte(pathflag), buildroots, opts)
 	obs := runExtractCase(c, in)
 	if vt(vnth(obs, 0)) == "generator-collision" {
 		c.Count("skipped:missing-block-present-elsewhere")
@@ -398,6 +403,8 @@ func itoa(i int) string {
 	}
 	return s
 }
+
+func vn0() Val { return VN(0) }
 
 func rootN(t Val) Val { return VL{VT("n"), t} }
 
@@ -506,6 +513,16 @@ func init() {
 			roots := VL{rootN(dirV(0, de("a", f1("A"))))}
 			c17Emit(c, "directed:evalsymlinks-link-budget", fs, "k0", "", roots, optFile, 0)
 		}
+		// no output directory argument: extraction into the working directory, which the process entered
+		// through a symlink (its logical $PWD spelling is what os.Getwd returns)
+		for _, od := range []string{"/SB/q/p/w/lnk", "/SB/q/p/w/alnk", c17Out} {
+			for _, sc := range scens {
+				if sc.name != "symlink-then-file" && sc.name != "symlink-dir-then-dir" && sc.name != "benign" && sc.name != "dotdot-names" {
+					continue
+				}
+				c17Emit(c, "directed:cwd-no-argument:"+sc.name, sc.fs, od, "", sc.roots, VL{VN(0), VN(0), VN(1)}, sc.pre)
+			}
+		}
 		// --path on directed trees
 		ptree := VL{rootN(dirV(0, de("a", f1("A")), de("d", dirV(0, de("b", f1("B")), de("x", linkV(tgt)), de("x", f1("PWNED")))), de("d", f1("second"))))}
 		for _, pf := range []string{"a", "d", "d/b", "d/x", "/d/b/", "nosuch", "d/nosuch", "a/b", "d//b", "./a", "..", "d/..", "/"} {
@@ -608,7 +625,11 @@ func init() {
 			}
 			// (a CARv2 on a stdin pipe fails before anything is extracted: C18 looks at that)
 			useStdin := gr.Chance(20)
-			opts := VL{vbool(useStdin), vbool(!useStdin && gr.Chance(12))}
+			opts := VL{vbool(useStdin), vbool(!useStdin && gr.Chance(12)), VN(0)}
+			if !oddOut && gr.Chance(10) {
+				od = pick(gr, []string{"/SB/q/p/w/lnk", "/SB/q/p/w/alnk", c17Out})
+				opts = VL{vbool(useStdin), vn0(), VN(1)}
+			}
 			c17Emit(c, "random", fs, od, pf, roots, opts, pre)
 		}
 	})
